@@ -534,6 +534,8 @@ impl<'scope, 'data, P: Platform> ResolutionResources<'data, 'scope, P> {
 
     fn handle_result(&self, result: Result) {
         if let Err(error) = result {
+            #[cfg(feature = "verif")]
+            crate::verif_api::errlog::arrive("resolution", &error);
             let _ = self.outputs.errors.push(error);
         }
     }
